@@ -135,7 +135,44 @@ func runC09(c *kernel.Ctx) {
 			}()
 			f()
 		}
-		switch k := t.Choose(12); k {
+		switch k := t.Choose(14); k {
+		case 12: // every packet type (also the ones a client never sends) with a tape-chosen body
+			a := attacker()
+			typ := byte(t.Range(1, 15))
+			flags := byte(t.Choose(16))
+			n := []int{0, 1, 2, 3, 5, 12, 100}[t.Choose(7)]
+			body := make([]byte, n)
+			x := uint32(t.Choose(1 << 30))
+			for i := range body {
+				x = x*1664525 + 1013904223
+				body[i] = byte(x >> 24)
+				if t.Chance(1, 3) {
+					body[i] = 0
+				}
+			}
+			buf := append([]byte{typ<<4 | flags, byte(n)}, body...)
+			a.Write(buf)
+			injected, what = len(buf), fmt.Sprintf("typed-packet type=%d", typ)
+		case 13: // degenerate but well-formed requests
+			a := attacker()
+			var buf []byte
+			switch t.Choose(5) {
+			case 0:
+				buf = []byte{0x82, 0x02, 0x00, 0x01} // SUBSCRIBE without any topic
+			case 1:
+				buf = []byte{0xa2, 0x02, 0x00, 0x01} // UNSUBSCRIBE without any topic
+			case 2:
+				buf = mqttc.Encode(a.Publish("", []byte("x"), false, true)) // empty topic
+			case 3:
+				buf = mqttc.Encode(mqttc.Connect("", strings.Repeat("u", 3000), &mqttc.Will{Topic: key + "/" + strings.Repeat("w/", 200), Payload: bytes.Repeat([]byte{'w'}, 500)}))
+			default:
+				p := a.Publish(key+"/canary/", []byte("q2"), false, false)
+				p.Qos = 2
+				p.MessageID = 9
+				buf = mqttc.Encode(p)
+			}
+			a.Write(buf)
+			injected, what = len(buf), "degenerate-request"
 		case 0: // random bytes
 			a := attacker()
 			n := t.Range(1, 2000)
